@@ -30,4 +30,35 @@ theorem ids_unique_after_mixin (f : Facts) (h : FactsOK f) (p : J) (ms : List J)
   have _ := hml  -- not needed: the proof goes through for association lists with repeated keys too
   Proofs.Mixin.mixin_ids_nodup f h.methods h.skipsEmpty p ms r hp hr hu hc
 
+/-- "an id is changed only if it collides", on the recorded ids: when none of the ids an added path item brings is
+    already recorded and they are distinct among themselves, the renaming loop records them as they are -/
+theorem renameIds_no_collision (idx : Nat) (origs : List String) :
+    ∀ ids : List String, (∀ x ∈ origs, x ∉ ids) → origs.Nodup →
+      Proofs.Mixin.renameIds idx ids origs = ids ++ origs := by
+  induction origs with
+  | nil => intro ids _ _; simp [Proofs.Mixin.renameIds_nil]
+  | cons id origs ih =>
+    intro ids h hn
+    have hid : ids.contains id = false := by simpa using h id (by simp)
+    rw [Proofs.Mixin.renameIds_cons, hid]
+    simp only [Bool.false_eq_true, if_false]
+    rw [ih (ids ++ [id]) ?_ (List.nodup_cons.1 hn).2]
+    · simp
+    · intro x hx hmem
+      rcases List.mem_append.1 hmem with h1 | h1
+      · exact h x (by simp [hx]) h1
+      · have : x = id := by simpa using h1
+        exact (List.nodup_cons.1 hn).1 (this ▸ hx)
+
+/-- … and on the path item itself: `renameOps` (the loop of `mergePaths` over the operations of one added path item)
+    leaves the ids of a path item that collides with nothing exactly as they were, under every method, and
+    operations without an id are left without one (`pathItemIDs` lists the non-empty ids in method order) -/
+theorem renameOps_keeps_ids_without_collision (f : Facts) (h : FactsOK f) (idx : Nat) (ids : List String) (pi : J)
+    (hfresh : ∀ x ∈ Mixin.pathItemIDs f pi, x ∉ ids) (hn : (Mixin.pathItemIDs f pi).Nodup) :
+    Mixin.pathItemIDs f (Mixin.renameOps f idx ids pi).1 = Mixin.pathItemIDs f pi := by
+  have hnd : f.mixinMethods.Nodup := h.methods.nodup_iff.2 (by decide)
+  obtain ⟨h1, h2⟩ := Proofs.Mixin.renameOps_spec f h.skipsEmpty hnd idx ids pi
+  rw [h1, renameIds_no_collision idx _ ids hfresh hn] at h2
+  exact (List.append_cancel_left h2).symm
+
 end C18
